@@ -19,7 +19,8 @@ FIELDS = ['position', 'rotation', 'scale']
 
 
 def vec(rng, dim):
-    return 'p' + '_'.join(str(rng.randint(-3, 9)) for _ in range(dim))
+    # a Vec (p), a plain tuple (t) or a list (l): whatever is assigned is what is stored and notified
+    return rng.choice('ppptl') + '_'.join(str(rng.randint(-3, 9)) for _ in range(dim))
 
 
 def generate(rng, tier):
@@ -50,9 +51,10 @@ def generate(rng, tier):
         for i in range(rng.randint(1, 3)):
             dim = rng.choice([2, 3])
             dims.append(dim)
-            p = vec(rng, dim) if rng.random() < 0.4 else '-'
-            r = (str(rng.choice(ROTS)) if dim == 2 else vec(rng, 3)) if rng.random() < 0.5 else '-'
-            s = vec(rng, dim) if rng.random() < 0.4 else '-'
+            # (the constructors convert what they are given to Vec2 / Vec3: constructor values are vectors)
+            p = 'p' + vec(rng, dim)[1:] if rng.random() < 0.4 else '-'
+            r = (str(rng.choice(ROTS)) if dim == 2 else 'p' + vec(rng, 3)[1:]) if rng.random() < 0.5 else '-'
+            s = 'p' + vec(rng, dim)[1:] if rng.random() < 0.4 else '-'
             lines.append(f'transform {dim} {p} {r} {s}')
         for i in range(len(dims)):
             for f in FIELDS:
@@ -124,7 +126,7 @@ def oracle(lines, obs):
             rot = t[3] if t[3] != '-' else ('0' if dim == 2 else 'p0_0_0')
             d = spec_disp.Spec(decl, [])
             d.hints, d.calls, d.out = shared.hints, shared.calls, out
-            if dim == 2 and rot.startswith('p'):
+            if dim == 2 and rot[0] in 'ptl':
                 out.prefix = ''
                 out.append('res raised TypeError')
                 rot = '0'
@@ -143,7 +145,7 @@ def oracle(lines, obs):
             elif t[2] == 'set':
                 f, v = t[3], t[4]
                 if f == 'rotation' and T['dim'] == 2:
-                    if v.startswith('p'):
+                    if v[0] in 'ptl':
                         out.append('res raised TypeError')
                         continue
                     v = str(int(v) % 720)
@@ -182,7 +184,7 @@ def nontrivial(lines, obs):
 def stats(scenarios, impl_obs):
     return {'sets': sum(1 for s in scenarios for l in s if ' set ' in l),
             'rotation_sets_2d_out_of_range': sum(1 for s in scenarios for l in s if ' set rotation ' in l
-                                                 and not l.split()[-1].startswith('p')
+                                                 and l.split()[-1][0] not in 'ptl'
                                                  and not 0 <= int(l.split()[-1]) < 720),
             'callbacks': sum(1 for obs in impl_obs for o in obs if ' cb ' in o),
             'transforms': sum(1 for s in scenarios for l in s if l.startswith('transform'))}
